@@ -136,7 +136,7 @@ Fixpoint bnb (offs : list plot) (d : day) (fut : list day) (R : Qc) (rem : Qc) (
       (fst (fst s1) ++ fst (fst s2), snd (fst s2), snd s2)
   end.
 
-Record mst := { m_pq : Qc; m_pc : Qc; m_pooled : bool; m_cl : list (Z * Qc); m_legs : list leg }.
+Record mst := { m_pq : Qc; m_pc : Qc; m_pooled : bool; m_cl : list (Z * Qc); m_legs : list leg; m_pos : Qc }.
 
 Definition split_day_ratio_applies_to_own_day := true.
 
@@ -148,8 +148,10 @@ Fixpoint mainpass (offs : list plot) (s : mst) (ds : list day) : err + mst :=
       if hasbuy d && qltb (bq d) resv then inl (EResvExceeds (dt d)) else
       let u := qdiv0 (bcost d + offset_of offs (dt d)) (bq d) in
       let avail0 := if hasbuy d then bq d - resv else 0 in
+      let pos1 := if hasbuy d then m_pos s + bq d else m_pos s in
       let sell_res :=
         if hassell d then
+          if qltb pos1 (sq d) then inl (EExceedsHolding (dt d)) else
           if qltb (avail0 + m_pq s) (sq d) then inl (EExceedsHolding (dt d)) else
           let rem0 := sq d in
           let '(l1, rem1, av1) :=
@@ -173,12 +175,12 @@ Fixpoint mainpass (offs : list plot) (s : mst) (ds : list day) : err + mst :=
       | inr (legs, av, cl, pq, pc) =>
           let '(pq', pc', pooled') :=
             if hasbuy d && qltb 0 av then (pq + av, pc + av * u, true) else (pq, pc, m_pooled s) in
-          mainpass offs {| m_pq := pq' * ratio d; m_pc := pc'; m_pooled := pooled'; m_cl := cl; m_legs := m_legs s ++ legs |} r
+          mainpass offs {| m_pq := pq' * ratio d; m_pc := pc'; m_pooled := pooled'; m_cl := cl; m_legs := m_legs s ++ legs; m_pos := (if hassell d then pos1 - sq d else pos1) * ratio d |} r
       end
   end.
 
 Definition run (ds : list day) : err + mst :=
   match prepass false [] ds with
   | inl e => inl e
-  | inr offs => mainpass offs {| m_pq := 0; m_pc := 0; m_pooled := false; m_cl := []; m_legs := [] |} ds
+  | inr offs => mainpass offs {| m_pq := 0; m_pc := 0; m_pooled := false; m_cl := []; m_legs := []; m_pos := 0 |} ds
   end.
